@@ -708,6 +708,15 @@ class Gen:
                 src = rng.choice(lower)
             lit, new = self.atom(src, bound)
             body.append(lit)
+            if self.has("cmp") and i > 0 and rng.chance(1, 2):
+                # range join: inequalities between the columns this atom binds and variables of the atoms before it --
+                # one-sided and two-sided, weak and strict, on one or two columns (what MakeIndex turns into index bounds)
+                for nv in [v for v in new if v[2] in ("number", "unsigned")][:2]:
+                    for _ in range(rng.range(1, 2)):
+                        ov = self.pick_var(bound, nv[2])
+                        if ov is not None:
+                            a, b = (nv, ov) if rng.chance(1, 2) else (ov, nv)
+                            body.append(("cmp", rng.choice(["lt", "le", "gt", "ge", "ge", "le"]), a, b))
             bound += new
         for _ in range(rng.range(0, 2)):
             lit, new = self.extra_literal(bound, lower)
